@@ -143,6 +143,7 @@ def plan_c04(tier, seed):
         add("g9", 1, 1, 2)
         add("g14a", 1, 1, 1)
         add("g6b", 1, 1, 1); add("g6b", 2, 1, 2)
+        add("g6c", 1, 1, 1); add("g6c", 2, 1, 2); add("g6c", 0, 1, 1)   # in-port streams of different lengths
         add("g6b", 2, 1, 2, pre={"in1.txt.p": "p.out(in=in1.txt;)"}, id="C04-g6b-i2-m2-pre1")
         add("g8", 3, 1, 2, "func", extra="emptyparam-setout", id="C04-g8-i3-m2-empty-param-in-path")
     else:
@@ -178,7 +179,7 @@ def maporder_stage(prop, oracles, tier, graphs=None, per_job=False, keep_mode=No
         seen = set()
         for r in prev:
             j = r["job"]
-            if j.get("_maporder") or not r.get("map_sites") or j["mode"] != "dpor" or j.get("no_race_report"):
+            if j.get("_maporder") or not r.get("map_sites") or j["mode"] != "dpor" or j.get("no_race_report") or "scen" not in j:
                 continue
             sc = j["scen"]
             if (sc["items"] > (1 if tier == "quick" else 2) and sc["graph"] not in ("gjoin3", "g8f", "g8g", "g8e")) or sc["max"] > 2:
@@ -255,6 +256,10 @@ def plan_c05(tier, seed):
     # stop the program, but may not return as if the work were done
     jobs.append(with_delay_fallback(wf("C05", "g2", 1, 1, 1, "cmd", oracles=["nohang", "c05"], events_dep=True, tier=tier, extra="absout", xdev="abs", id="C05-g2-absout-other-device")))
     jobs.append(with_delay_fallback(wf("C05", "g3", 1, 1, 2, "cmd", oracles=["nohang", "c05"], events_dep=True, tier=tier, extra="absout", xdev="abs", id="C05-g3-absout-other-device")))
+    # bundled components with sender goroutines of their own, streams longer than the buffers (deadlock freedom / return)
+    for comp_name, lens, zp in (("paramcombinator", "2,2", "1"), ("paramcombinator", "3,1", "1"), ("paramcombinator", "2,2", "0"), ("filecombinator", "2,2", "0")):
+        jobs.append(with_delay_fallback({"id": f"C05-{comp_name}-l{lens.replace(',', '')}-beyond-buffer" + ("-one-consumer" if zp == "1" else ""), "prop": "C05", "kind": "comp", "mode": "dpor", "budget": budget(tier, 30, 300), "oracles": [], "events_dep": False, "force_all": -1,
+                                         "args": {"comp": comp_name, "lens": lens, "buf": "1", "zip": zp}}, 1))
     jobs.extend(mem_jobs("C05", o, tier, [("g5", 1, 2), ("g10b", 1, 2)] if tier == "quick" else [("g5", 1, 2), ("g10b", 1, 2), ("g4", 1, 2), ("g11", 2, 2), ("g9", 1, 2)], events_dep=True))
     # streaming outputs (real FIFOs, see C17): first run, then the run again in place - when Run returns no FIFO / temp dir is left
     def stream_first(ctx, prev):
@@ -705,7 +710,7 @@ FAULT_KINDS = ["exit-before", "exit-mid", "exit-after", "killed", "missing", "mi
 
 def fault_targets(graph, items):
     """(proc, match) pairs: every task of every command process of the graph"""
-    procs = {"g2": ["p"], "g3": ["p", "q"], "g4": ["p", "q", "r"], "g6": ["p", "q", "r", "j"], "g7": ["p", "q", "r"], "g8": ["p", "q"], "g5": ["p"]}[graph]
+    procs = {"g2": ["p"], "g10": ["p"], "g10b": ["p", "q"], "g3": ["p", "q"], "g4": ["p", "q", "r"], "g6": ["p", "q", "r", "j"], "g7": ["p", "q", "r"], "g8": ["p", "q"], "g5": ["p"]}[graph]
     t = []
     for p in procs:
         for i in range(items):
@@ -746,6 +751,10 @@ def plan_c09(tier, seed):
     for (p_, mt) in (("p", "in0.txt"), ("p", "in1.txt")):
         for fk in ("exit-after", "exit-mid"):
             add("g8g", 2, 1, 2, "cmd", p_, mt, fk)
+    # a failing task in a branch that ends in the sink while ANOTHER process (without out-ports) drives the workflow
+    for g in ("g10", "g10b"):
+        for fk in ("exit-after", "exit-mid"):
+            add(g, 1, 1, 2, "cmd", "p", "in0.txt", fk)
     # tasks that cannot be formed
     for extra in ("emptyparam", "badpath", "badpath-nonascii-letter", "badpath-nonascii-digit", "badpath-glob", "badpath-dollar", "missingtag", "missingtag-setout", "missingparam-setout"):
         for kind in ("cmd", "func"):
